@@ -11,6 +11,7 @@
     sh <i> <status> <msg>          health check i: replace the fixed answer / Update the freshness response
     sl <name>                      a run.StartupProgressLogger: ReadyChecker on /ready, HealthChecker on /health
     se <k> <event>                 AddShard / CompletedShard / ShardLoadFailed / Finish on logger k
+    sfr <k> <msg> <n>              Finish(err) on logger k; n GET /ready while err.Error() is being rendered, one after
     sp <name> <state> | ss <i> <state>   a run.SchedulerPulseCheck health check driven to idle / future / ontime / stalled
     ready | health | names         GET /ready, GET /health, ReadyCheckNames()
     conc <programs>                concurrent threads (last op of a case); answer = history, model answers `*`
@@ -51,6 +52,7 @@ def parseOp : List String → Option Op
       | ["finerr", m] => do some (StartupEv.finish (some (← str m)))
       | _ => none)
     some (.startupEv k ev)
+  | ["sfr", k, m, n] => do some (.finishRace (← k.toNat?) (← str m) (← n.toNat?))
   | ["sp", n, st] => do
     let (s, m) := pulseRes (← parsePulse st)
     some (.regHealth (← str n) s m)
@@ -76,6 +78,9 @@ def stepOp (s : St) (op : Op) : Option (St × String) :=
       let r := health false s
       some (s', s!"{r.code} {stringToHex r.status} {stringToHex r.message} {showChecks r.checks}")
     | .names => some (s', joinComma (s.readyNames.map stringToHex))
+    | .finishRace _ _ n =>
+      let show1 (r : ReadyResp) := s!"{r.code} {stringToHex r.status} {showChecks r.checks}"
+      some (s', " ".intercalate (List.replicate n (show1 (ready false s)) ++ [show1 (ready false s')]))
     | _ => some (s', "ok")
 
 def step (s : St) (toks : List String) : St × String :=
@@ -98,11 +103,22 @@ def parseRes (s : String) : Option Res :=
 
 def parseChecks (s : String) : Option (List Res) := (splitComma s).mapM parseRes
 
+/-- `code status checks` triples -/
+def parseReadys : List String → Option (List Spec.C33.ReadyObs)
+  | [] => some []
+  | code :: _st :: checks :: rest => do
+    let o : Spec.C33.ReadyObs := ⟨← code.toNat?, ← parseChecks checks⟩
+    some (o :: (← parseReadys rest))
+  | _ => none
+
 def parseObs (op : Op) (ans : String) : Option Spec.C33.Obs :=
   match op, tokens ans with
   | .ready, [code, _st, checks] => do some (.ready ⟨← code.toNat?, ← parseChecks checks⟩)
   | .health, [code, _st, msg, checks] => do some (.health ⟨← code.toNat?, ← str msg, ← parseChecks checks⟩)
   | .names, [ns] => do some (.names (← (splitComma ns).mapM str))
+  | .finishRace _ _ n, toks => do
+    let obs ← parseReadys toks
+    if obs.length = n + 1 then some (.race (obs.take n) (← obs[n]?)) else none
   | .ready, _ | .health, _ | .names, _ => none
   | _, _ => if ans = "ok" then some .other else none
 
@@ -153,6 +169,7 @@ def firstBad : St → List (Op × Spec.C33.Obs) → Nat → String
       | .ready => s!"ready-aggregate-wrong:op#{i}"
       | .health => s!"health-aggregate-wrong:op#{i}"
       | .names => s!"ready-names-wrong:op#{i}"
+      | .finishRace _ _ _ => s!"ready-passes-during-finish-err:op#{i}"
       | _ => s!"unexpected-answer:op#{i}"
 
 def oracle (obs : List (List String × String)) : Verdict :=
@@ -176,6 +193,7 @@ def oracle (obs : List (List String × String)) : Verdict :=
         | none => { a with bad := true }
         | some o =>
           let tag := match o with
+            | .race _ r => ["finish-race", s!"ready={r.code}"]
             | .ready r => [s!"ready={r.code}"]
             | .health r => [s!"health={r.code}"]
             | _ => []
